@@ -15,21 +15,22 @@ RULE = ('generated nodes (1..3 generated module classes: random parameter/comman
         'constant / export flags, limit parameters, check hooks) x request sequences of change / do lines sent as bytes '
         'through the real request handler: valid, invalid by type, by range, by limit, by name (unknown, unexported, '
         'internal instead of wire name), by access (read-only, constant), after histories that moved the dynamic '
-        'limits. distinct = (request class, datatype kind, expected outcome); non-trivial = every request that is not a '
+        'limits; plus a two-thread scenario: a change request arriving while another thread is inside an access method '
+        'that moves the limit (the driver call must respect the limit in force when it happens). distinct = (request class, datatype kind, expected outcome); non-trivial = every request that is not a '
         'plain valid change')
 ASSUMPTIONS = ['ground truth = the generator spec (never derived from the built class)',
                'payload verdicts come from vlib.refdt; candidates in the tolerance band (either) are accepted both ways',
                'a parameter has either limit parameters or a check hook, not both (a custom check replaces the automatic limit check by design)',
                'requests are sent one per connection so that driver events can be attributed to a request']
 REQUIRED = ['nodes', 'requests', 'expect_refused', 'expect_accepted', 'driver_calls_checked', 'limit_moves', 'refused_by_limit',
-            'do_requests', 'snapshots_compared']
+            'do_requests', 'snapshots_compared', 'limit_race_runs', 'limit_race_writer_met_the_lock']
 
 N = {'quick': 60, 'thorough': 3000}
 BADVALUE = {'WrongType', 'RangeError', 'BadValue'}
 
 
 def plan(tier, seed, scale=1.0):
-    return [{'idx': i, 'n': max(1, int(N[tier] * scale))} for i in range(16)]
+    return [{'idx': i, 'n': max(1, int(N[tier] * scale)), 'nrace': 12 if tier == 'quick' else 400} for i in range(16)]
 
 
 class FakeSock:
@@ -460,12 +461,138 @@ class World:
         return dict(base, klass='valid-do', expect={'kind': 'accept', 'calls': 1})
 
 
+def run_limit_race(w, r, rng):
+    """'satisfies the module's CURRENT dynamic limits': a change request that arrives while another thread (the poller)
+    is inside an access method which moves the limit.  The driver write, if it happens, must see a value inside the
+    limits in force at that moment; the reply must be consistent with it.  Real threads, no sleeps: the reader blocks
+    in its driver until the writer is known to wait for (or to have passed) the module's access lock."""
+    import threading
+    import frappy.core as C
+    from frappy.params import Limit
+    kind = rng.choice(['max', 'min', 'limits'])
+    lo, hi = 0.0, 100.0
+    if kind == 'max':
+        old, new = (lo, 80.0), (lo, float(rng.randint(10, 50)))
+        probe = float(rng.randint(int(new[1]) + 1, 79))
+    elif kind == 'min':
+        old, new = (20.0, hi), (float(rng.randint(50, 90)), hi)
+        probe = float(rng.randint(21, int(new[0]) - 1))
+    else:
+        old, new = (10.0, 90.0), (float(rng.randint(30, 40)), float(rng.randint(50, 60)))
+        probe = float(rng.choice([rng.randint(11, int(new[0]) - 1), rng.randint(int(new[1]) + 1, 89)]))
+    inside, go, waiting = threading.Event(), threading.Event(), threading.Event()
+    events = []
+    limname = 'x_' + kind
+
+    def cur_limits(mod):
+        if kind == 'limits':
+            return tuple(mod.x_limits)
+        return (mod.x_min, hi) if kind == 'min' else (lo, mod.x_max)
+
+    def write_x(self, v):
+        events.append(('write', v, cur_limits(self)))
+        return v
+
+    def read_lim(self):
+        if not go.is_set():
+            inside.set()
+            go.wait(10)
+        return new if kind == 'limits' else (new[0] if kind == 'min' else new[1])
+    ns = {'__module__': __name__, 'x': C.Parameter('x', C.FloatRange(lo, hi), readonly=False, default=50.0),
+          limname: Limit(), 'write_x': write_x, 'read_' + limname: read_lim}
+    cls = type('RaceMod', (C.Module,), ns)
+    cfg = {'m': {'cls': cls, 'description': 'x', limname: {'value': list(old) if kind == 'limits' else (old[0] if kind == 'min' else old[1])}}}
+    node = w.nodes.Node(cfg).build()
+    mod = node.secnode.modules['m']
+    go.set()
+    getattr(mod, 'read_' + limname)      # exists
+    go.clear()
+    # the old limits are in force (configured); make the writer observable at the module's access lock
+    real_lock = mod.accessLock
+    writer_id = []
+
+    class LockProxy:
+        def __enter__(self_):
+            if writer_id and threading.get_ident() == writer_id[0]:
+                waiting.set()
+            return real_lock.__enter__()
+
+        def __exit__(self_, *a):
+            return real_lock.__exit__(*a)
+
+        def acquire(self_, *a, **k):
+            return real_lock.acquire(*a, **k)
+
+        def release(self_):
+            return real_lock.release()
+    mod.accessLock = LockProxy()
+    server = type('Srv', (), {})()
+    server.dispatcher, server.log, server.detailed_errors = node.dispatcher, w.env.Log('iface'), False
+    result = {}
+
+    def reader():
+        try:
+            getattr(mod, 'read_' + limname)()
+        except Exception as e:
+            result['reader_error'] = repr(e)
+
+    def writer():
+        writer_id.append(threading.get_ident())
+        fs = FakeSock(f'change m:_x {probe}\n'.encode())
+        buf = io.StringIO()
+        try:
+            w.Handler(fs, ('127.0.0.1', 7), server)
+        except Exception as e:
+            result['writer_error'] = repr(e)
+        result['out'] = b''.join(fs.out).decode('utf-8').split('\n')[:-1]
+    tr = threading.Thread(target=reader)
+    tr.start()
+    if not inside.wait(10):
+        r.inconclusive.append('limit race: reader never reached its driver')
+        go.set()
+        return
+    tw = threading.Thread(target=writer)
+    tw.start()
+    reached = waiting.wait(5)
+    go.set()
+    tr.join(10)
+    tw.join(10)
+    if tr.is_alive() or tw.is_alive():
+        r.inconclusive.append('limit race: threads did not finish')
+        return
+    r.count('limit_race_runs')
+    if reached:
+        r.count('limit_race_writer_met_the_lock')
+    case = {'kind': 'limit-race', 'limit': limname, 'old': old, 'new': new, 'probe': probe}
+    out = result.get('out') or []
+    replies = [l for l in out if not l.startswith(('update ', 'error_update '))]
+    writes = [e for e in events if e[0] == 'write']
+    r.case(('limit-race', kind), True)
+    if 'reader_error' in result or 'writer_error' in result or len(replies) != 1:
+        r.violation('C04/limit-race/raises', f'{result}'[:300], case)
+        return
+    for _, v, lims in writes:
+        r.count('driver_calls_checked')
+        if not (lims[0] <= v <= lims[1]):
+            r.violation('C04/limit-race/driver-called-outside-current-limits',
+                        f'write_x({v}) called while {limname} is {lims} (the limit was moved by a concurrent read before the write started)', case)
+            return
+    accepted = replies[0].startswith('changed ')
+    if accepted != bool(writes):
+        r.violation('C04/limit-race/reply-inconsistent-with-driver', f'reply {replies[0][:80]!r}, driver calls {writes}', case)
+        return
+    if r.want_sample():
+        r.sample({'limit race': limname, 'old': old, 'new': new, 'probe': probe, 'reply': replies[0][:60], 'driver_calls': len(writes)})
+
+
 def run_shard(shard):
     r = rec.Recorder(shard)
     rng = random.Random(f'C04/{shard["seed"]}/{shard["idx"]}')
     w = World(r, rng)
     for i in range(shard['n']):
         w.run_node(i)
+    for i in range(shard.get('nrace', 12)):
+        run_limit_race(w, r, rng)
     return r.result()
 
 
